@@ -60,7 +60,12 @@ Seg == /\ e.ev = "seg"
 \* ---------------------------------------------------------------- C04
 Req == /\ e.ev = "req"
        /\ LET now  == [w |-> e.now[1], r |-> e.now[2] * H.TS]      \* ms pair over loopMS -> u pair over P
-              ok   == Status(SC, e.k, e.i, now)
+              ok0  == Status(SC, e.k, e.i, now)
+              \* audio: the segment ends up to one frame (H.slack ms) after its reference video segment; the text's
+              \* "segment end" may be read either way, so in that slack both 425 and 200 are accepted
+              slackU == MsPair(SC, H.slack)
+              ok   == IF H.slack > 0 /\ now.w >= 0 /\ TLeq(Avail(SC, e.k, e.i), now) /\ TLt(now, TAdd(P(SC), Avail(SC, e.k, e.i), slackU))
+                      THEN ok0 \cup {425} ELSE ok0
               key  == e.url
               old  == IF key \in DOMAIN phase THEN phase[key] ELSE 0
           IN /\ Clause("C04.class", e.st \in {425, 200, 410}, <<"status", e.st>>)
@@ -71,8 +76,8 @@ Req == /\ e.ev = "req"
                                       LET rem == TooEarlyBy(SC, e.k, e.i, now)      \* u
                                           x   == [w |-> e.early[1], r |-> e.early[2] * H.TS]
                                       IN /\ e.early[1] >= 0
-                                         /\ TLt(TSub(P(SC), rem, x), MsPair(SC, 1))      \* rem - x < 1 ms
-                                         /\ TLt(TSub(P(SC), x, rem), MsPair(SC, 1)),     \* x - rem < 1 ms
+                                         /\ TLt(TSub(P(SC), rem, x), MsPair(SC, 1))                 \* rem - x < 1 ms
+                                         /\ TLt(TSub(P(SC), x, rem), MsPair(SC, 1 + H.slack)),      \* x - rem < 1 ms (+ audio slack)
                        <<"too_early_by_ms", e.early, "remaining_u", TooEarlyBy(SC, e.k, e.i, now)>>)
              \* before availabilityStartTime: the figure is the time to AST or the time to the segment's availability
              /\ Clause("C04.body_before_ast", (e.st = 425 /\ now.w < 0) =>
